@@ -29,7 +29,7 @@ def plans(ctx):
             R.Plan("t1c", "S_t1c", emit_mod=12, max_inst=1, max_pw=2),
             R.Plan("t1d", "S_t1d", emit_mod=2, max_inst=2, max_pw=2),
             R.Plan("two", "S_q1", emit_mod=40, ids="Ids2", max_inst=1, max_pw=0, pw_on=False),
-            R.Plan("sim", "S_t1a", simulate="num=500", depth=45, workers=8, rich=True, ids="Ids2", max_inst=6, max_pw=3,
+            R.Plan("sim", "S_t1a", simulate="num=60", depth=45, workers=8, rich=True, ids="Ids2", max_inst=6, max_pw=3,
                    junk=True)]
 
 
